@@ -45,7 +45,7 @@ class FragWire(Monitor):
 class C06(UdpCheck):
     pid = "C06"
     budget = {"quick": 70, "thorough": 900}
-    ncases = {"quick": 450, "thorough": 40000}
+    ncases = {"quick": 700, "thorough": 40000}
     rule = ("case = swarm config + plan of sends in all retry modes, lengths stratified around 0, the single-datagram capacity "
             "and multiples of the fragment size (incl. enlarged last fragment), 5 content kinds (one imitating fragment "
             "headers), several fragmented messages in flight at once, over-limit sends (8 MiB+1..+1024), under loss / "
